@@ -192,7 +192,7 @@ func (t *tr) expr(e ast.Expr) string {
 		if x.Type == nil {
 			return t.unsupported("type switch guard", x)
 		}
-		return fmt.Sprintf("(.assert2 %s %s)", t.expr(x.X), lq(exprName(x.Type)))
+		return fmt.Sprintf("(.assert1 %s %s)", t.expr(x.X), lq(exprName(x.Type)))
 	case *ast.CompositeLit:
 		if _, ok := x.Type.(*ast.ArrayType); ok {
 			return fmt.Sprintf("(.sliceLit %s)", t.list(x.Elts))
@@ -388,7 +388,11 @@ func (t *tr) stmt(s ast.Stmt) []string {
 			}
 			if len(x.Rhs) == 1 {
 				if lhs, ok := identNames(x.Lhs); ok {
-					return []string{fmt.Sprintf("%s %s %s", kind, qlist(lhs), t.expr(x.Rhs[0]))}
+					rhs := t.expr(x.Rhs[0])
+					if ta, isTA := x.Rhs[0].(*ast.TypeAssertExpr); isTA && len(lhs) == 2 && ta.Type != nil {
+						rhs = fmt.Sprintf("(.assert2 %s %s)", t.expr(ta.X), lq(exprName(ta.Type))) // comma-ok form
+					}
+					return []string{fmt.Sprintf("%s %s %s", kind, qlist(lhs), rhs)}
 				}
 				if len(x.Lhs) == 1 && x.Tok == token.ASSIGN {
 					if sel, ok := x.Lhs[0].(*ast.SelectorExpr); ok {
